@@ -39,7 +39,11 @@ def parseMsg (s : String) : Option Msg :=
   | some [id, key, txn] => some { op := .data, pkey := [], txn := txn, key := key, size := 8, lsn := 0, id := id }
   | _ => none
 
-def parseMsgs (s : String) : Option (List Msg) := (splitList s).mapM parseMsg
+/-- `+id:key:txn`: a record near the per-record limit (accepted); `!id:key:txn`: a record the (nearly full)
+batch REFUSED with can't-fit - the batcher moves it to the next batch, so it is no part of this one -/
+def parseMsgs (s : String) : Option (List Msg) :=
+  ((splitList s).filter (fun e => !e.startsWith "!")).mapM fun e =>
+    parseMsg (if e.startsWith "+" then (e.drop 1).toString else e)
 
 def showCall (c : List Rec) : String := joinList (c.map toString)
 
